@@ -178,9 +178,10 @@ impl EntityQuery {
     }
 
     pub fn sql_aliased_name(&self) -> String{
-        self.alias.clone()
+        //quoted: an alias or an entity name can be a keyword of the SQL language
+        format!("\"{}\"", self.alias.clone()
             .unwrap_or(self.name.clone())
-            .replace(".", "$")
+            .replace(".", "$"))
     }
 
 
